@@ -26,7 +26,8 @@ PwSet == SeqsUpTo(Alphabet, PwLen)
       \cup { [i \in 1..n |-> 97 + (i % 26)] : n \in {13, 14, 15, 27, 28, 29, 31, 32, 33} }       \* NT: 27/28 chars straddle the 55/56-byte padding boundary
       \cup { [i \in 1..n |-> IF i % 3 = 0 THEN 128512 ELSE 1046] : n \in {5, 9, 20} }
 Users == { <<>>, <<97>>, <<65, 100, 109, 105, 110>>, <<97, 68, 77, 105, 78>>, <<201, 108, 1046, 49>>, <<233, 76, 1078, 49>>,
-           <<117, 115, 101, 114, 128512>>, [i \in 1..20 |-> 65 + i] }
+           <<117, 115, 101, 114, 128512>>, [i \in 1..20 |-> 65 + i],
+           <<66560, 108, 105, 99, 101>>, <<66600, 65, 66560>> }       \* cased letters outside the BMP, upper and lower
 NT(pw) == MD4Sum(UTF16LE(pw))
 DCC(nt, user) == MD4Sum(nt \o UTF16LE(Lower(user)))
 
